@@ -5,7 +5,8 @@
 From BU Require Import Lib.Bytes Lib.PolyMod CashAddr.CashAddr Bech32.Bech32
   Checksum.Syndrome Checksum.Valid Checksum.CashDetect Checksum.BechDetect
   Checksum.CashString Checksum.BechString.
-From BU Require Import Gen.Kernels Tie.KernelsTie Gen.Kernels2 Checksum.SourceDetect.
+From BU Require Import Gen.Kernels Tie.KernelsTie Gen.Kernels2 Checksum.SourceDetect Tie.Kernels2_CashAddr Tie.Kernels2_CashAddrDecode Tie.Kernels2_Bech32.
+From BU Require Import Gen.Nets Address.Address Checksum.AddressDetect.
 
 (* ---------- CashAddr ---------- *)
 (* every string that agrees with an accepted string on the prefix and the separator, has the same
@@ -38,6 +39,22 @@ Theorem C03_cashaddr_min_distance_6 : forall pre body body' r r',
   (6 <= hamming body body')%nat.
 Proof. exact cashaddr_min_distance_6. Qed.
 Print Assumptions C03_cashaddr_min_distance_6.
+
+(* review round 2: the same through DecodeAddress with an explicit prefix (model of the dispatch: Address/Address.v).
+   A string labelled -- up to ASCII case -- with the CashAddr or the SLP prefix of the network, accepted by the CashAddr
+   decoder, with 1..5 characters of its payload part substituted, is rejected by DecodeAddress: by the first attempt, by
+   the retry under the SLP prefix, and by the public-key and Base58Check paths; for every network record, every set of
+   registered legacy ids and whatever ParsePubKey accepts *)
+Theorem C03_DecodeAddress_detects_5 :
+  forall (P : Type) (ec_parse : list N -> option P) (net : Nets.net) (reg_pkh reg_sh lbl body body' : list N) r,
+    equal_fold (lbl ++ [58]) (cash_prefix net ++ [colon]) = true \/
+    equal_fold (lbl ++ [58]) (slp_prefix net ++ [colon]) = true ->
+    decode_cashaddr (lbl ++ 58 :: body) = Ok r ->
+    length body' = length body -> (length body <= 112)%nat ->
+    (1 <= hamming body body' <= 5)%nat ->
+    exists e, decode_address P ec_parse net reg_pkh reg_sh (lbl ++ 58 :: body') = Err e.
+Proof. exact decode_address_detects_5. Qed.
+Print Assumptions C03_DecodeAddress_detects_5.
 
 (* symbol level, for every prefix (any list of character codes) *)
 Theorem C03_cashaddr_verify_detects_5 : forall prefix v v',
@@ -173,6 +190,21 @@ Theorem C03_bech32_source_detects_4 : forall hrp data data' r,
 Proof. exact bech32_src_detects_4_case. Qed.
 Print Assumptions C03_bech32_source_detects_4.
 
+(* the checksum creators / verifiers the `checksum_valid` / `checksum_unique` / `verify_detects` theorems speak about
+   are the translated source too (the models write `unpack 8`, `repeat 0 8`, `unpack 6`, `repeat 0 6` without
+   going through the extracted literals: these statements are what ties them) *)
+Theorem C03_cashaddr_checksum_functions_are_translated_source : forall prefix payload, Bytes payload ->
+  Kernels2.createChecksum prefix payload = Ok (CashAddr.create_checksum prefix payload) /\
+  Kernels2.verifyChecksum prefix payload = Ok (CashAddr.verify_checksum prefix payload).
+Proof. intros prefix payload H. exact (conj (createChecksum_tie prefix payload H) (verifyChecksum_tie prefix payload H)). Qed.
+Print Assumptions C03_cashaddr_checksum_functions_are_translated_source.
+
+Theorem C03_bech32_checksum_functions_are_translated_source : forall hrp data, Bytes hrp -> Bytes data ->
+  Kernels2.bech32Checksum hrp data = Ok (Bech32.create_checksum hrp data) /\
+  Kernels2.bech32VerifyChecksum hrp data = Ok (Bech32.verify_checksum hrp data).
+Proof. intros hrp data Hh Hd. exact (conj (bech32Checksum_tie hrp data Hh Hd) (bech32VerifyChecksum_tie hrp data Hh Hd)). Qed.
+Print Assumptions C03_bech32_checksum_functions_are_translated_source.
+
 (* ---------- the hypotheses are satisfiable ---------- *)
 (* "bitcoincash:qpm2qsznhks23z7629mms6s4cwef74vcwvy22gdx6a" is accepted; with 'q' -> 'p' at the first
    payload position it is rejected (checksum), with 'q' -> 'b' (outside the charset) as well *)
@@ -184,6 +216,12 @@ Example C03_example_cashaddr :
   decode_cashaddr (firstn 12 ex_cash ++ 112 :: skipn 13 ex_cash) = Err 8 /\
   decode_cashaddr (firstn 12 ex_cash ++ 98 :: skipn 13 ex_cash) = Err 6.
 Proof. vm_compute. repeat split; reflexivity. Qed.
+
+(* the label hypothesis of C03_DecodeAddress_detects_5 is met by that address on the mainnet record *)
+Example C03_example_label :
+  equal_fold (firstn 11 ex_cash ++ [58]) (cash_prefix Nets.mainnet ++ [colon]) = true /\
+  ex_cash = firstn 11 ex_cash ++ 58 :: skipn 12 ex_cash.
+Proof. vm_compute. split; reflexivity. Qed.
 
 (* "bc1qw508d6qejxtdg4y5r3zarvary0c5xw7kv8f3t4" (BIP173) is accepted; one substitution is rejected *)
 Definition ex_bech : list N :=
